@@ -7,6 +7,7 @@ import (
 	"go/printer"
 	"go/token"
 	"os"
+	"path/filepath"
 	"regexp"
 
 	"github.com/reedom/convergen/pkg/builder"
@@ -74,6 +75,14 @@ func NewParser(srcPath, dstPath string) (*Parser, error) {
 			return file, nil
 		},
 	}
+	// Whatever the output path holds from an earlier (possibly interrupted) run must
+	// not influence how the package is listed: present it to the loader as an empty
+	// file of the input file's package.
+	if dstStat != nil {
+		if overlay, ok := blankOverlay(srcPath, dstPath); ok {
+			cfg.Overlay = overlay
+		}
+	}
 	pkgs, err := packages.Load(cfg, "file="+srcPath)
 	if err != nil {
 		return nil, logger.Errorf("%v: failed to load type information: \n%w", srcPath, err)
@@ -96,6 +105,25 @@ func NewParser(srcPath, dstPath string) (*Parser, error) {
 		opts:    option.NewOptions(),
 		imports: util.NewImportNames(fileSrc.Imports),
 	}, nil
+}
+
+// blankOverlay returns a loader overlay that replaces the content of dstPath with
+// nothing but the package clause of srcPath.
+func blankOverlay(srcPath, dstPath string) (map[string][]byte, bool) {
+	file, err := parser.ParseFile(token.NewFileSet(), srcPath, nil, parser.PackageClauseOnly)
+	if err != nil {
+		return nil, false
+	}
+	absPath, err := filepath.Abs(dstPath)
+	if err != nil {
+		return nil, false
+	}
+	absSrcPath, err := filepath.Abs(srcPath)
+	if err != nil || filepath.Dir(absSrcPath) != filepath.Dir(absPath) {
+		// An output file in another directory belongs to another package.
+		return nil, false
+	}
+	return map[string][]byte{absPath: []byte("package " + file.Name.Name + "\n")}, true
 }
 
 // Parse parses convergen annotations in the source code.
